@@ -106,7 +106,7 @@ def replay_part(pid, tier):
 
 
 # properties with probes in the compiled-code harness (/verif/replay-exec): what serde does with the generated declarations
-EXEC_PROPS = ("C01", "C03", "C04", "C05", "C09", "C10", "C16")
+EXEC_PROPS = ("C01", "C03", "C04", "C05", "C09", "C10", "C16", "C18")
 
 
 def exec_part(pid, tier):
@@ -130,8 +130,29 @@ def exec_part(pid, tier):
     return [r]
 
 
+def cli_part(pid, tier):
+    import vxcli
+    fam = {"C19": vxcli.c19_cases, "C20": vxcli.c20_cases}[pid]
+    r = {"obligation": pid + ".cli.bounded", "status": "ok", "engine": "the real graphql-client binary, driven case by case (C20: against a mock endpoint on 127.0.0.1)",
+         "bounded": True, "what": "the command-line behaviour the property states, observed on concrete invocations", "bound": "the cases of lib/vxcli.py %s" % fam.__name__,
+         "trusted": [], "cmd": "graphql-client (built from /repo)", "cases": 0}
+    try:
+        wit, tried = vxcli.run_family(fam, tier)
+        r["cases"] = tried
+        if wit:
+            r["status"] = "fail"
+            r["detail"] = wit["observed"]
+            r["witness"] = wit
+    except RuntimeError as e:
+        r["status"] = "undecided"
+        r["detail"] = str(e)
+    return [r]
+
+
 def extra_checks(pid, tier):
     out0 = replay_part(pid, tier) if pid in ALWAYS_REPLAY else []
+    if pid in ("C19", "C20"):
+        out0 += cli_part(pid, tier)
     if pid in EXEC_PROPS:
         out0 += exec_part(pid, tier)
     return out0 + extra_checks_inner(pid, tier)
